@@ -105,7 +105,19 @@ def gen_candidates(rng):
     makes of the query must not leak into the test of the next"""
     case = gen_friendly(rng)
     ms = ["rev", "cnt", "mx"]
-    kind = rng.choice(["time_then_notime", "coarse_then_notime", "dims_then_nodims", "notime_then_time"])
+    kind = rng.choice(["time_then_notime", "coarse_then_notime", "dims_then_nodims", "notime_then_time", "not_reaggregatable"])
+    if kind == "not_reaggregatable":
+        # measures that cannot be re-aggregated from per-bucket values (count_distinct, median, stddev) listed in a time rollup, asked for WITHOUT the
+        # time dimension (or at a coarser granularity): the per-bucket values would have to be combined across buckets
+        bad = rng.choice(["cd", "med", "sd"])
+        rdims = rng.sample(["cat", "reg"], rng.randint(0, 2))
+        case["preaggs"] = [dict(name="r0", measures=[bad, "rev", "cnt"], dimensions=rdims, time_dimension="ts", granularity=rng.choice(["day", "week"]))]
+        case["mets"] = [bad] + rng.sample(["rev", "cnt"], rng.randint(0, 1))
+        case["dims"] = list(rdims) + rng.choice([[], [], ["ts__month"], ["ts__year"]])
+        case["filters"] = []
+        if len(case["rows"]) < 12:
+            case["rows"] = gen_case(rng)["rows"] or case["rows"]
+        return case
     if kind == "time_then_notime":
         pre = [dict(name="r0", measures=["mn"], dimensions=["cat"], time_dimension="ts", granularity="day"),
                dict(name="r1", measures=ms, dimensions=["cat"], time_dimension=None, granularity=None)]
